@@ -177,6 +177,8 @@ def rpc_oracle(case):
                     if rop in ("bins", "bload"):
                         items = re.search(r"docs=(\S+)", req).group(1).split("/")
                         allowed = {it.split(";")[0] for it, kk in zip(items, kinds) if kk in ("ok", "zero", "subn", "fmax")}
+                        if ans.startswith("err"):
+                            allowed = set()      # the whole stream was answered with a refusal status: it may have stored nothing
                     elif rop == "ins" and ans.startswith("ok") and kinds[0] in ("zero", "subn", "fmax"):
                         allowed = {re.search(r"id=(\d+)", req).group(1)}
                     bad = [c for c in changed if c not in allowed]
